@@ -94,7 +94,7 @@ pub fn gen_doc_ids(r: &mut Rng, with_h: bool, mixed_alt: bool, numeric_ids: bool
                     let n = names[(ai + r.below(2)) % names.len()];
                     (n.to_string(), if n == "ZN" { "ZN".to_string() } else if n == "X1" { String::new() } else { n[..1].to_string() })
                 };
-                let alts: Vec<Option<String>> = match altmode { 0 if mixed_alt => if ai >= 1 { vec![Some("A".into()), Some("B".into())] } else { vec![None] }, 0 | 1 => vec![Some("A".into()), Some("b".into())], _ => vec![None] };
+                let alts: Vec<Option<String>> = match altmode { 0 if mixed_alt => if ai >= 1 { if seq % 2 == 0 { vec![Some("A".into()), Some("B".into())] } else { vec![Some("A".into())] } } else { vec![None] }, 0 | 1 => vec![Some("A".into()), Some("b".into())], _ => vec![None] };
                 for alt in alts {
                     id += 1;
                     shape.push(CifRow {
